@@ -15,6 +15,8 @@ type TargetOpts struct {
 	NoPlainNull bool // union targets are always pointers / wrappers
 	// PlainNullPrimOnly: a plain (non-pointer) target under a nullable union only for non-record branches
 	PlainNullPrimOnly bool
+	// OmitTags: a quarter of the struct fields carry omitempty
+	OmitTags bool
 }
 
 // Target derives a Go type compatible with schema s.
@@ -98,7 +100,7 @@ func (ds *DataSchema) target(r *rand.Rand, s *refavro.Schema, o TargetOpts, unde
 	case "record":
 		t = &T{K: KStruct}
 		for i, f := range s.Fields {
-			t.Fields = append(t.Fields, &F{Go: fmt.Sprintf("F%d", i), JSON: f.Name, T: ds.target(r, f.Type, o, false)})
+			t.Fields = append(t.Fields, &F{Go: fmt.Sprintf("F%d", i), JSON: f.Name, T: ds.target(r, f.Type, o, false), Omit: o.OmitTags && r.IntN(4) == 0})
 		}
 	case "array":
 		t = &T{K: KSlice, Elem: ds.target(r, s.Items, o, false)}
